@@ -76,6 +76,10 @@ def run(tier: str) -> int:
             rep.extra["apalache_unbounded_layout"] = f"not run: {type(ex).__name__}"
     # 2. binding: real BatchProcessor observed on every point, judged by TLC
     pts = points(tier, rng)
+    # a third of the points request the device count as an integer-valued numpy / jax scalar
+    for k, pt in enumerate(pts):
+        if k % 3 == 1 and pt[2] is not None:
+            pt.append(["np64", "np32", "jnp32"][(k // 3) % 3])
     nproc = min(C.NCPU, 12)
     chunks = [pts[i::nproc] for i in range(nproc)]
     import concurrent.futures as cf
